@@ -126,7 +126,7 @@ def run_case(case, keep_log=False):
                     probes["repeat_compared"] += 1
                 continue
             ta, tb = xf(op["ta"]), xf(op["tb"])
-            res = ex.raw(ta, tb, op["U"], op["A"], op.get("faults"), i)
+            res = ex.raw(ta, tb, op["U"], op["A"], op.get("faults"), i, op.get("targ"))
             for _ in range(op.get("rep", 0)):
                 again = ex.raw(ta, tb, op["U"], op["A"], None, i)
                 for comp in ("W", "U", "A"):
